@@ -651,6 +651,9 @@ func workload(c *rt.Ctx) []Case {
 	pkn := pkNullCases()
 	pkn = append(pkn, typeFamilyCases()...)
 	pkn = append(pkn, nameCases()...)
+	pkn = append(pkn, fkPairingCases()...)
+	pkn = append(pkn, nullDefaultCases()...)
+	pkn = append(pkn, notNullSameDefaultCases(pool)...)
 	for _, cs := range pkn {
 		add(cs)
 	}
@@ -694,7 +697,7 @@ func workload(c *rt.Ctx) []Case {
 			k++
 		}
 		for i, cs := range pkn {
-			if i%6 == 0 {
+			if i%6 == 0 || (cs.Src == "fk-pairing" || cs.Src == "null-default" || cs.Src == "notnull-same-default") && i%3 == 0 {
 				cs.CLI = true
 				cs.Name = "cli:" + cs.Name
 				add(cs)
@@ -894,6 +897,130 @@ func nameCases() []Case {
 				out = append(out, Case{Pair: sqlm.Pair{A: base, B: b, Mode: modes[k%len(modes)], Rows: rows}, Name: fmt.Sprintf("names:%s/%s", t.Name, edit), Src: "names", Edits: []string{edit}})
 				k++
 			}
+		}
+	}
+	return out
+}
+
+// fkPairingCases: a composite foreign key keeps its name, its child column set and its parent column
+// set, but the PAIRING of the columns changes — (a,b)->(x,y) becomes (b,a)->(x,y) or (a,b)->(y,x) — for a
+// cross-table and a self reference, parent key being the primary key or a unique index; plus the
+// permutation of both sides at once, which is the same constraint and must plan nothing harmful. The
+// facts come from pragma_foreign_key_list (pairs by seq).
+func fkPairingCases() []Case {
+	i := func(name string) sqlm.Col { return sqlm.Col{Name: name, Type: "integer"} }
+	ni := func(name string) sqlm.Col { return sqlm.Col{Name: name, Type: "integer", Null: true} }
+	mk := func(self, uniq bool, cols, ref []string) sqlm.Schema {
+		p := sqlm.Table{Name: "par", Cols: []sqlm.Col{i("x"), i("y"), ni("z")}, PK: []string{"x", "y"}}
+		if uniq {
+			p = sqlm.Table{Name: "par", Cols: []sqlm.Col{i("id"), i("x"), i("y")}, PK: []string{"id"},
+				Idx: []sqlm.Idx{{Name: "par_x_y", Unique: true, Parts: []sqlm.Part{{Col: "x"}, {Col: "y"}}}}}
+		}
+		fk := sqlm.FK{Name: "pair_fk", Cols: cols, RefTable: "par", RefCols: ref, OnDelete: "CASCADE"}
+		if self {
+			p.Cols = append(p.Cols, ni("a"), ni("b"))
+			p.FKs = []sqlm.FK{fk}
+			return sqlm.Schema{Tables: []sqlm.Table{p}}
+		}
+		c := sqlm.Table{Name: "chi", Cols: []sqlm.Col{i("id"), ni("a"), ni("b"), ni("w")}, PK: []string{"id"}, FKs: []sqlm.FK{fk}}
+		return sqlm.Schema{Tables: []sqlm.Table{p, c}}
+	}
+	ab, ba, xy, yx := []string{"a", "b"}, []string{"b", "a"}, []string{"x", "y"}, []string{"y", "x"}
+	perms := []struct {
+		name     string
+		fc, fr   []string
+		tc, tr   []string
+		identity bool
+	}{
+		{"child-swapped", ab, xy, ba, xy, false},
+		{"parent-swapped", ab, xy, ab, yx, false},
+		{"child-swapped-back", ba, xy, ab, xy, false},
+		{"both-swapped (same constraint)", ab, xy, ba, yx, true},
+	}
+	var out []Case
+	modes := []string{"atlas", sqlm.Styles[0].Name, sqlm.Styles[1].Name, sqlm.Styles[2].Name}
+	n := 0
+	for _, self := range []bool{false, true} {
+		for _, uniq := range []bool{false, true} {
+			for _, pm := range perms {
+				a, b := mk(self, uniq, pm.fc, pm.fr), mk(self, uniq, pm.tc, pm.tr)
+				if a.Validate() != nil || b.Validate() != nil {
+					panic("c01 fkPairingCases: invalid model")
+				}
+				name := fmt.Sprintf("fk-pairing:%s", pm.name)
+				if self {
+					name += "/self"
+				}
+				if uniq {
+					name += "/unique-parent-key"
+				}
+				out = append(out, Case{Pair: sqlm.Pair{A: a, B: b, Mode: modes[n%len(modes)]}, Name: name, Src: "fk-pairing", Edits: []string{"fk.pairing"}})
+				n++
+			}
+		}
+	}
+	return out
+}
+
+// nullDefaultCases: a column whose default is spelled out as NULL (`default = sql("NULL")`, raw
+// `DEFAULT NULL` / `DEFAULT (NULL)`), created from empty, re-applied from raw databases, added to an
+// existing table, set on and removed from an existing column.
+func nullDefaultCases() []Case {
+	nd := &sqlm.Default{Kind: "expr", V: "NULL"}
+	with := sqlm.Table{Name: "nd", Cols: []sqlm.Col{{Name: "id", Type: "integer"}, {Name: "t", Type: "text", Null: true, Default: nd}, {Name: "n", Type: "integer", Null: true, Default: nd},
+		{Name: "d", Type: "datetime", Null: true, Default: nd}, {Name: "v", Type: "text", Null: true}}, PK: []string{"id"}}
+	without := with.Clone()
+	for k := range without.Cols {
+		without.Cols[k].Default = nil
+	}
+	one := without.Clone()
+	one.Cols[1].Default = nd
+	added := with.Clone()
+	added.Cols = append(added.Cols, sqlm.Col{Name: "extra", Type: "real", Null: true, Default: nd})
+	indexed := with.Clone()
+	indexed.Idx = []sqlm.Idx{{Name: "nd_v", Parts: []sqlm.Part{{Col: "v"}}}}
+	S := func(t sqlm.Table) sqlm.Schema { return sqlm.Schema{Tables: []sqlm.Table{t}} }
+	var out []Case
+	out = append(out, Case{Pair: sqlm.Pair{B: S(with), Mode: "atlas"}, Name: "null-default:create", Src: "null-default"})
+	for _, st := range sqlm.Styles {
+		out = append(out, Case{Pair: sqlm.Pair{A: S(with), B: S(with), Mode: st.Name}, Name: "null-default:raw-identity/" + st.Name, Src: "null-default"})
+	}
+	modes := []string{"atlas", sqlm.Styles[0].Name, sqlm.Styles[3].Name}
+	pairs := []struct {
+		name string
+		a, b sqlm.Table
+	}{
+		{"set on all", without, with}, {"drop from all", with, without}, {"set on one", without, one}, {"add column", with, added},
+		{"add index (in place)", with, indexed}, {"drop column", added, with},
+	}
+	for k, p := range pairs {
+		for r := 0; r < 2; r++ {
+			out = append(out, Case{Pair: sqlm.Pair{A: S(p.a), B: S(p.b), Mode: modes[(k+r)%len(modes)], Rows: 3 * r}, Name: "null-default:" + p.name, Src: "null-default", Edits: []string{"col.default.null"}})
+		}
+	}
+	return out
+}
+
+// notNullSameDefaultCases: every nullable pool column that already HAS a default only flips to NOT
+// NULL (the default stays) on a populated table that holds NULLs in it — the copy must back-fill them.
+func notNullSameDefaultCases(pool []sqlm.PoolEntry) []Case {
+	var out []Case
+	modes := []string{"atlas", sqlm.Styles[1].Name, sqlm.Styles[2].Name}
+	n := 0
+	for _, pe := range pool {
+		if pe.Name == "all" {
+			continue
+		}
+		for _, e := range sqlm.Neighbourhood(pe.S) {
+			if e.Kind != "col.null.to-notnull-default" || strings.Contains(e.Desc, "default added") {
+				continue
+			}
+			b := e.Apply(pe.S)
+			if ok, _ := sqlm.DataSafe(pe.S, b); !ok {
+				continue
+			}
+			out = append(out, Case{Pair: sqlm.Pair{A: pe.S, B: b, Mode: modes[n%len(modes)], Rows: 4}, Name: fmt.Sprintf("notnull-same-default:%s/%s", pe.Name, e), Src: "notnull-same-default", Edits: []string{e.Kind}})
+			n++
 		}
 	}
 	return out
